@@ -254,7 +254,6 @@ func programs() []prog {
 		w := newWorld(descAutokick)
 		w.join(w.a, "alice", "pa")
 		w.join(w.c, "bob", "pb")
-		glife.KickLeaves = true
 		return []func(){
 				func() { w.leave(w.a) },
 				func() { w.join(w.b, "bob", "pb") },
